@@ -81,6 +81,10 @@ pub enum Call {
     /// mp.insert_after(&bar, other) / insert_before: the shared bar is the anchor
     MpInsertAfter,
     MpInsertBefore,
+    /// the same calls through a handle obtained by downgrade() + upgrade(): it is the same bar
+    TickViaWeak,
+    EnableTickViaWeak(u8),
+    DisableTickViaWeak,
 }
 
 #[derive(Debug, Clone, Serialize, Deserialize)]
@@ -145,6 +149,14 @@ fn exec(c: Call, pb: &ProgressBar, mp: &Option<MultiProgress>) {
         Call::MpClear => {
             if let Some(mp) = mp {
                 let _ = mp.clear();
+            }
+        }
+        Call::TickViaWeak | Call::EnableTickViaWeak(_) | Call::DisableTickViaWeak => {
+            let again = pb.downgrade().upgrade().expect("a strong handle exists");
+            match c {
+                Call::TickViaWeak => again.tick(),
+                Call::EnableTickViaWeak(k) => again.enable_steady_tick(interval(k)),
+                _ => again.disable_steady_tick(),
             }
         }
         Call::MpInsertAfter | Call::MpInsertBefore => {
@@ -237,7 +249,7 @@ fn run_sched(c: &SchedCase) -> CaseResult {
             runner.run(move || body(&p3))
         }
     });
-    let touch = |calls: &Vec<Call>| calls.iter().any(|c| matches!(c, Call::Update | Call::EnableTick(_) | Call::DisableTick));
+    let touch = |calls: &Vec<Call>| calls.iter().any(|c| matches!(c, Call::Update | Call::EnableTick(_) | Call::DisableTick | Call::EnableTickViaWeak(_) | Call::DisableTickViaWeak));
     let mut v = Verdict::default();
     match r {
         Ok(n) => {
@@ -321,6 +333,8 @@ fn body_manual(c: &ManualCase) {
         let (pb, manual_id, n) = (pb.clone(), manual_id.clone(), c.manual.clamp(1, 4));
         hs.push(shuttle::thread::spawn(move || {
             *manual_id.lock().unwrap() = Some(shuttle::thread::current().id());
+            // (every other program goes through a handle obtained by downgrade() + upgrade())
+            let pb = if n % 2 == 0 { pb.downgrade().upgrade().expect("a strong handle exists") } else { pb };
             for k in 0..n {
                 match k % 3 {
                     0 => pb.tick(),
@@ -421,6 +435,9 @@ fn call_strategy() -> BoxedStrategy<Call> {
         1 => Just(Call::MpClear),
         1 => Just(Call::MpInsertAfter),
         1 => Just(Call::MpInsertBefore),
+        1 => Just(Call::TickViaWeak),
+        1 => (0u8..4).prop_map(Call::EnableTickViaWeak),
+        1 => Just(Call::DisableTickViaWeak),
     ]
     .boxed()
 }
